@@ -350,7 +350,7 @@ def run(ctx):
                    f'(got {dest})', file=g.file, line=fn.lineno, witness='CREATE JOB j (select 1) IF (select 2)')
     check_stored_as_rebuilt(ctx, g, embed)
     # (3) -------------------------------------------------------------------------------------------------------------
-    M = rewritten_value_tokens(lex)
+    M = rewritten_value_tokens(lex, ctx.src)
     tree = ctx.src.tree(UTILS)
     tts = None
     for n in tree.body:
